@@ -388,6 +388,9 @@ func (c *ctxT) c19Steps(fd *ast.FuncDecl, method string) []string {
 				treat = "swallowed"
 			}
 		}
+		if _, ok := st.(*ast.ReturnStmt); ok {
+			treat = "returned"
+		}
 		switch {
 		case strings.Contains(s, "im.IBCModule."+method+"("):
 			out = append(out, "app:"+treat)
